@@ -257,7 +257,7 @@ impl Property for C10 {
         crate::gen::REGIMES_CATALOGUE
     }
     fn rule(&self) -> String {
-        "proptest: histories of up to 12 operations over {set_params(tame | extreme | repeated alpha), set_params(wrong length), set_params with an injected model failure (hand-written models; keep-old and store-then-fail styles), residuals(), jacobian(), linear_coefficients(), model evaluation} on all problem flavours; each history is executed twice, with every fresh heap allocation of the executing threads (including the rayon workers of parallel problems) pre-filled with 0xFF and with 0x5A by the harness' global allocator. Oracle: after every successful update parameters, coefficients, residuals and Jacobian are bitwise equal to those of a freshly built problem whose model starts at that alpha; repeated queries are bitwise equal; the two poison runs are bitwise equal and no element equals the poison value. Extreme values include +0.0/-0.0 (also as pairs of updates that differ only in the sign of a zero) and values that put the largest basis value just below the overflow threshold of the scalar type. Non-trivial: >= 3 operations including a repeated alpha or a failing update".into()
+        "proptest: histories of up to 12 operations over {set_params(tame | extreme | repeated alpha), set_params(wrong length), set_params with an injected model failure (hand-written models; keep-old and store-then-fail styles), residuals(), jacobian(), linear_coefficients(), model evaluation} on all problem flavours; each history is executed twice, with every fresh heap allocation of the executing threads (including the rayon workers of parallel problems) pre-filled with 0xFF and with 0x5A by the harness' global allocator. Oracle: after every successful update parameters, coefficients, residuals and Jacobian are bitwise equal to those of a freshly built problem whose model starts at that alpha; repeated queries are bitwise equal; the two poison runs are bitwise equal and no element equals the poison value. Extreme values include +0.0/-0.0 (also as pairs of updates that differ only in the sign of a zero) and values that put the largest basis value just below the overflow threshold of the scalar type. For hand-written models a clone of the problem is updated and queried in between: the original must report the same bits before and afterwards, and the clone must not change when the original is queried. Non-trivial: >= 3 operations including a repeated alpha or a failing update".into()
     }
     fn assumptions(&self) -> Vec<String> {
         vec!["heap contents are sampled by two fill patterns, not quantified over".into(), "bitwise comparison is legitimate because history and fresh problem execute the same deterministic computation".into()]
@@ -279,11 +279,20 @@ impl Property for C10 {
             .boxed()
     }
     fn check(&self, case: &C10Case) -> Check {
+        // clones of a problem are independent objects (hand-written models; the second parameter
+        // vector is the first one the history applies)
+        let other: Option<&Vec<f64>> = case.ops.iter().find_map(|o| if let Op::Set(a) = o { Some(a) } else { None });
         if case.base.f32 {
             model_direct::<f32>(case)?;
+            if let Some(o) = other {
+                super::clones::check::<f32>(&case.base, o)?;
+            }
             run::<f32>(case)
         } else {
             model_direct::<f64>(case)?;
+            if let Some(o) = other {
+                super::clones::check::<f64>(&case.base, o)?;
+            }
             run::<f64>(case)
         }
     }
